@@ -134,9 +134,9 @@ def FieldMap.setGroup (m : FieldMap) (t : Tag) (tvs : List TagValue) : FieldMap 
 /-- ORIGINAL `Remove` (D5): deletes only from the map -/
 def FieldMap.removeOrig (m : FieldMap) (t : Tag) : FieldMap := { m with lookup := alErase m.lookup t }
 
-/-- `Remove` after the fix: also drops the tag from the order list -/
+/-- `Remove` after the fix: also drops (the first occurrence of) the tag from the order list -/
 def FieldMap.remove (m : FieldMap) (t : Tag) : FieldMap :=
-  { m with lookup := alErase m.lookup t, tags := m.tags.filter (· ≠ t) }
+  { m with lookup := alErase m.lookup t, tags := m.tags.erase t }
 
 /-- `Clear` -/
 def FieldMap.clear (m : FieldMap) : FieldMap := { m with tags := [], lookup := [] }
